@@ -724,8 +724,10 @@ Proof.
     intros D. simp_state. split; [constructor|]. intros _ p [].
   - (* HM_POP, last bar *) eapply srt_pop; eauto.
   - (* HM_POP *) eapply srt_pop; eauto.
-  - (* BAR_RENDER *) apply (Srt_bars s); simp_state; auto. intros m _. eapply prio_of_upd_same; eauto.
-    eapply bar_render_prio; eauto.
+  (* BAR_RENDER (with and without the render-time abort mark) *)
+  - apply (Srt_bars s); simp_state; auto; intros m _; eapply prio_of_upd_same; eauto;
+       match goal with Hr : bar_render _ _ _ _ _ _ _ = Some _ |- _ => rewrite (bar_render_prio _ _ _ _ _ _ _ _ Hr) end;
+       try reflexivity; match goal with |- context [if ?c then _ else _] => destruct c end; reflexivity.
 Qed.
 
 (* ---------- all invariants, for every accepted event list ---------- *)
